@@ -86,7 +86,7 @@ def run_generator(argv=None, call=None, force_random=None, pre_files=None):
     import random as real_random
     import sys
     rg = repo("roberta_generator")
-    d = tempfile.mkdtemp(prefix="crv_")
+    d = tempfile.mkdtemp(prefix="crv.v2_")            # a working directory whose path contains a dot
     os.mkdir(os.path.join(d, "inputs"))
     for name, content in (pre_files or {}).items():      # files left by an earlier run in this directory
         with open(os.path.join(d, name), "w") as f:
